@@ -223,6 +223,7 @@ def run(idx: Index, rep: Report, tier: str):
                 "alpha/beta electron split clone and the 1/2 factors of the interaction-operator assembly.")
     rep.trust("CPython ast", "pyscf ao2mo.incore.general(eri, (C1, C2, C3, C4)) returns (C1 C2|C3 C4) in chemist order", "openfermion up_index/down_index = 2p / 2p+1")
     rep.assume("integral values, frozen-core folding arithmetic, equality with full CI and orbital-rotation invariance are numerical facts and are not decided")
+    check_fci_sector(idx, rep)
     layout = derive_layout(idx, rep)
     one = {0: (A, A), 1: (B, B)}
     n = 0
@@ -304,3 +305,66 @@ def run(idx: Index, rep: Report, tier: str):
                 except (Undecidable, Raised) as e:
                     raise AnalysisError(f"_get_molecular_hamiltonian_uhf: register size {norm(nq[0].value)} not foldable: {e}")
     rep.decide(ok, rule, g, nq[0] if nq else g.node, text="register = 2 * max(n_alpha_orbitals, n_beta_orbitals)", what="the register holds every alpha and beta spin-orbital", reason="register size changed")
+
+
+# ---------------------------------------------------------------------------------------------------
+def check_fci_sector(idx: Index, rep: Report):
+    """The classical reference must be solved in the target (n_alpha, n_beta) sector.  Every call that hands an electron count to the CI
+    object (kernel, make_rdm1/2/12, and the CAS constructor) passes the pair built from the alpha and beta counts; a bare electron count is
+    admissible only where `spin == 0` is established by an enclosing test (a bare count makes pyscf pick the lowest-|Sz| sector)."""
+    rule = "K6.electron-sector"
+    FCI = "tangelo/algorithms/classical/fci_solver.py"
+    cls = idx.cls(f"{FCI}::FCISolverPySCF")
+    n = 0
+    for mname in ("__init__", "simulate", "get_rdm"):
+        m = cls.methods[mname]
+        parents = {}
+        for node in ast.walk(m.node):
+            for ch in ast.iter_child_nodes(node):
+                parents[ch] = node
+        for c in ast.walk(m.node):
+            if not (isinstance(c, ast.Call) and isinstance(c.func, ast.Attribute)):
+                continue
+            f = norm(c.func)
+            if not (f.startswith("self.cisolver.") and c.func.attr in ("kernel", "make_rdm1", "make_rdm2", "make_rdm12", "make_rdm1s", "make_rdm12s") or f.endswith("mcscf.CASSCF") or f.endswith("CASCI")):
+                continue
+            # the electron argument: the one whose text mentions nelec / n_alpha / n_beta
+            cand = [a for a in list(c.args) + [k.value for k in c.keywords] if any(t in norm(a) for t in ("nelec", "n_alpha", "n_beta", "n_electrons"))]
+            if len(cand) != 1:
+                raise AnalysisError(f"{m.ref}: electron argument of {norm(c)[:60]} not identified")
+            a = cand[0]
+            pair = isinstance(a, ast.Tuple) and [norm(x) for x in a.elts] == ["self.n_alpha", "self.n_beta"]
+            # enclosing tests establishing spin == 0
+            guarded = False
+            cur = c
+            while cur in parents:
+                par = parents[cur]
+                if isinstance(par, ast.If) and norm(par.test) in ("self.spin == 0", "not self.spin", "self.spin == 0.0") and any(cur is x or cur in list(ast.walk(x)) for x in par.body):
+                    guarded = True
+                cur = par
+            ok = pair or (norm(a) == "self.nelec" and guarded)
+            n += 1
+            rep.decide(ok, rule, m, c, text=f"{mname}: {f}(..., {norm(a)}){' under spin == 0' if guarded else ''}",
+                       what="the CI object always works in the target (n_alpha, n_beta) sector: it gets the pair, or the bare count only where spin == 0 is established",
+                       reason=f"{f} receives `{norm(a)}` without an enclosing `spin == 0` test: for spin >= 2 pyscf then solves the lowest-|Sz| sector, not the target one")
+    rep.floor("CI calls with an electron argument", n, 6)
+    # the pair itself: n_alpha - n_beta = spin and n_alpha + n_beta = nelec (same closed form as the occupation vector)
+    init = cls.methods["__init__"]
+    asg = {norm(x.targets[0]): x.value for x in own_nodes(init.node) if isinstance(x, ast.Assign) and norm(x.targets[0]) in ("self.n_alpha", "self.n_beta")}
+    if set(asg) != {"self.n_alpha", "self.n_beta"}:
+        raise AnalysisError("FCISolverPySCF.__init__: n_alpha / n_beta assignments not found")
+    from ..consteval import Folder, Raised, Undecidable
+    bad = []
+    for ne in range(0, 9):
+        for spin in range(0, ne + 1):
+            if (ne + spin) % 2:
+                continue
+            try:
+                na = Folder(env={"self.nelec": ne, "self.spin": spin}).expr(asg["self.n_alpha"])
+                nb = Folder(env={"self.nelec": ne, "self.spin": spin}).expr(asg["self.n_beta"])
+            except (Undecidable, Raised) as e:
+                raise AnalysisError(f"FCISolverPySCF: n_alpha / n_beta not foldable: {e}")
+            if (na, nb) != ((ne + spin) // 2, (ne - spin) // 2):
+                bad.append(f"nelec={ne}, spin={spin}: ({na}, {nb})")
+    rep.decide(not bad, rule, init, init.node, text="(n_alpha, n_beta) = ((nelec + spin)/2, (nelec - spin)/2) for nelec 0..8 and every admissible spin",
+               what="the sector handed to the CI object is the one with the requested electron number and spin projection", reason="; ".join(bad[:3]))
